@@ -4,6 +4,7 @@ import (
 	"fmt"
 	"math/big"
 	"sort"
+	"strings"
 
 	shared "github.com/aquilax/hranoprovod-cli/v3"
 )
@@ -222,6 +223,106 @@ func checkC01(w *Worker) {
 			}
 		}
 	}
+	// the same books through the real files and commands: csv database-resolved (every recipe, sorted)
+	// and report element-total (one element across recipes), reverse map order
+	appBody := func(k, L int, coefs []float64) func(x *Exec) {
+		return func(x *Exec) {
+			naming := x.Choose(2, "input:naming")
+			rname := func(i int) string {
+				if naming == 1 {
+					return fmt.Sprintf("r%d", k-1-i)
+				}
+				return fmt.Sprintf("r%d", i)
+			}
+			book := make(absBook, k)
+			for i := 0; i < k; i++ {
+				book[i].Name = rname(i)
+				opts := []string{}
+				for j := i + 1; j < k; j++ {
+					opts = append(opts, rname(j))
+				}
+				opts = append(opts, leaves...)
+				l := x.Choose(L+1, "input:len")
+				for e := 0; e < l; e++ {
+					nm := opts[x.Choose(len(opts), "input:ingredient")]
+					cf := coefs[x.Choose(len(coefs), "input:coef")]
+					book[i].Ings = append(book[i].Ings, absIng{nm, cf})
+				}
+			}
+			// declaration order in the file: as numbered, or reversed (forward and backward references)
+			decl := append(absBook{}, book...)
+			if x.Choose(2, "input:declaration-order") == 1 {
+				for l, r := 0, len(decl)-1; l < r; l, r = l+1, r-1 {
+					decl[l], decl[r] = decl[r], decl[l]
+				}
+			}
+			want := refResolve(book)
+			files := map[string]string{"food.yaml": renderBook(decl)}
+			x.Case(decl.String(), true)
+			c := appCase{Args: []string{"csv", "database-resolved"}, Files: files}
+			r := runApp(c)
+			x.Obs(r.Key())
+			rep := map[string]interface{}{"cmd": c.shell(), "observed": r.String()}
+			if r.Failed || r.Panic != "" {
+				x.Violate("C01|app|csv database-resolved|failed", fmt.Sprintf("`%s`: %s", c.shell(), r.String()), rep)
+				return
+			}
+			recs, err := parseCSV(r.Stdout)
+			if err != nil {
+				x.Violate("C01|app|csv database-resolved|unparseable", err.Error(), rep)
+				return
+			}
+			var wantRows []string
+			names := []string{}
+			for n := range want {
+				names = append(names, n)
+			}
+			sort.Strings(names)
+			for _, n := range names {
+				for _, el := range sortedKeys(want[n]) {
+					wantRows = append(wantRows, n+","+el+","+f2(want[n][el]))
+				}
+			}
+			var gotRows []string
+			for _, rec := range recs {
+				if len(rec) == 3 {
+					rec[2] = normNum(rec[2])
+				}
+				gotRows = append(gotRows, strings.Join(rec, ","))
+			}
+			if strings.Join(gotRows, "\n") != strings.Join(wantRows, "\n") {
+				x.Violate("C01|app|csv database-resolved|wrong-rows", fmt.Sprintf("`%s`\nrows:\n%s\nexpected (exact path sums, sorted by recipe then element):\n%s", c.shell(), strings.Join(gotRows, "\n"), strings.Join(wantRows, "\n")), rep)
+				return
+			}
+			// report element-total x: one row per recipe that resolves to some x
+			c2 := appCase{Args: []string{"report", "element-total", "x"}, Files: files}
+			r2 := runApp(c2)
+			if r2.Failed || r2.Panic != "" {
+				x.Violate("C01|app|element-total|failed", fmt.Sprintf("`%s`: %s", c2.shell(), r2.String()), nil)
+				return
+			}
+			rows, err := parseValueName(r2.Stdout)
+			if err != nil {
+				x.Violate("C01|app|element-total|unparseable", err.Error(), nil)
+				return
+			}
+			gotM := map[string]string{}
+			for _, rw := range rows {
+				gotM[rw.Name] = rw.Val
+			}
+			wantM := map[string]string{}
+			for n, els := range want {
+				if v, ok := els["x"]; ok {
+					wantM[n] = f2(v)
+				}
+			}
+			if fmt.Sprint(gotM) != fmt.Sprint(wantM) || len(rows) != len(wantM) {
+				x.Violate("C01|app|element-total|wrong-rows", fmt.Sprintf("`%s`\nrows %v\nexpected %v", c2.shell(), gotM, wantM), map[string]interface{}{"cmd": c2.shell()})
+			}
+		}
+	}
+	w.appInit()
+	w.Explore("dag-through-files-and-commands", ExploreOpts{ShardDepth: 5}, appBody(3, 2, []float64{2, -1}))
 	budgets["env:maporder2"] = 0 // the idempotence pass runs under sorted order (quick) ...
 	if w.Tier == "thorough" {
 		budgets["env:maporder2"] = 1
